@@ -1,9 +1,17 @@
 ------------------------------- MODULE HistMC -------------------------------
 (* Exhaustive small-scope model of histogramming:                                 *)
 (*  - ChooseData / ChooseSpec enumerate every case of the bounded space (these    *)
-(*    states are exported as JSON and replayed into the real code);               *)
+(*    states are exported as JSON and replayed into the real code); every case    *)
+(*    carries the REPRESENTATION of the data argument (element type, byte order,  *)
+(*    strided / reversed / record-field view, python sequence, 0-d ...), the      *)
+(*    entry point and the kind of scalar used for binsize / min / max - a covering *)
+(*    design (RepFan representations per case), none of them changes a value;     *)
 (*  - Step / Fill run the implementation-shaped pass of Hist.tla on the case;     *)
-(*  - MechRefines: the finished pass is accepted by the property-level spec.      *)
+(*  - MechRefines: the finished pass is accepted by the property-level spec;      *)
+(*  - ObjNew / ObjCall: a Binner OBJECT as a state machine - histories of dohist  *)
+(*    / calc_stats calls with different options on one object, with the cached    *)
+(*    sort index as implementation state; ObjRefines: what the object holds after *)
+(*    every call is accepted by the property-level spec of the last dohist call.  *)
 EXTENDS Hist, Json
 
 CONSTANTS MaxLen,      \* data arrays of length 1..MaxLen
@@ -12,48 +20,198 @@ CONSTANTS MaxLen,      \* data arrays of length 1..MaxLen
           NBinSet,     \* bin counts for nbin mode
           LimVals,     \* explicit min / max values tried (besides "absent")
           FixedFill,   \* TRUE: trailing fill ends at the counted data (repaired code)
-          DoExport     \* TRUE: print every chosen case as JSON
+          DoExport,    \* TRUE: print every chosen case as JSON
+          RepFan,      \* representations tried per case (covering design)
+          HLens,       \* object histories: lengths of the data array
+          HVals,       \*   its lattice values
+          HBinSizes, HNBins, HNPer,   \*   bin specifications of a dohist call
+          HMins, HMaxs,               \*   explicit limits of a call (besides "absent")
+          HDepth,      \*   calls per history
+          HThin,       \*   the LAST call of a history is thinned 1 : HThin (covering design)
+          HBothW,      \*   TRUE: every data array with and without weights; FALSE: by design
+          FixedCache   \* TRUE: the cached sort index is always the stable argsort; FALSE: a
+                       \* deviating object that skips the sort for plain counts (self-test)
 
-VARIABLES phase, c, st
-vars == <<phase, c, st>>
+VARIABLES phase, c, st, ob
+vars == <<phase, c, st, ob>>
 
 Absent == 99
 NoCase == [x |-> <<>>]
+NoOb   == [x |-> <<>>]
 
-Init == phase = "start" /\ c = NoCase /\ st = <<>>
+Init == phase = "start" /\ c = NoCase /\ st = <<>> /\ ob = NoOb
 
+\* ---- representations of the data argument -------------------------------------------------
+\* names are mapped to concrete numpy / python objects by the adapter ("be" = non-native byte
+\* order; recNN = field of a packed record array with itemsize NN; the last group only for n = 1)
+RepSeq    == <<"f8", "f8be", "f4", "f4be", "i2", "i4", "i4be", "i8", "u1", "u4", "list", "intlist", "tuple",
+               "strided2", "strided3", "reversed", "col2d", "rec12", "rec20", "rec12be", "reci4", "recf4",
+               "readonly">>
+ScalarSeq == <<"zerod", "pyfloat", "pyint", "npf8", "npi4">>
+EntrySeq  == <<"histogram", "binner", "more", "weighted">>
+SrepSeq   == <<"pyfloat", "pyint", "npf8", "npi8">>
+RepsFor(n) == IF n = 1 THEN RepSeq \o ScalarSeq ELSE RepSeq
+
+B2I(b) == IF b THEN 1 ELSE 0
+RECURSIVE WSum(_, _)
+WSum(x, i) == IF i > Len(x) THEN 0 ELSE x[i] * (2 * i - 1) + WSum(x, i + 1)
+CaseHash(x, mode, b, mn, mx) ==
+    WSum(x, 1) + 3 * b + (IF mode = "binsize" THEN 0 ELSE 11)
+    + (IF mn = Absent THEN 0 ELSE 5 + 7 * mn) + (IF mx = Absent THEN 0 ELSE 13 + 5 * mx)
+
+\* independent linear forms: every (representation, entry point, scalar kind) triple and every pair with mode /
+\* limit pattern occurs (checked on the exported cases by the adapter)
+EntryHash(x, mode, b, mn, mx) ==
+    VSum(x) + 2 * b + (IF mode = "binsize" THEN 0 ELSE 1)
+    + (IF mn = Absent THEN 0 ELSE 1 + mn) + (IF mx = Absent THEN 0 ELSE 2 + 3 * mx)
+SrepHash(x, b, mn, mx) ==
+    x[1] + Len(x) + b + (IF mn = Absent THEN 0 ELSE 3 + 2 * mn) + (IF mx = Absent THEN 0 ELSE 1 + mx)
+
+\* ---- cases ---------------------------------------------------------------------------------
 ChooseData ==
     /\ phase = "start"
     /\ \E n \in 1..MaxLen : \E x \in [1..n -> Vals] :
           c' = [x |-> x]
-    /\ phase' = "data" /\ UNCHANGED st
+    /\ phase' = "data" /\ UNCHANGED <<st, ob>>
 
 ChooseSpec ==
     /\ phase = "data"
     /\ \E m \in {<<"binsize", b>> : b \in BinSizes} \cup {<<"nbin", b>> : b \in NBinSet} :
-       \E mn \in LimVals \cup {Absent} : \E mx \in LimVals \cup {Absent} :
-          c' = [x |-> c.x, mode |-> m[1], b |-> m[2],
-                hasmin |-> mn # Absent, min |-> IF mn = Absent THEN 0 ELSE mn,
-                hasmax |-> mx # Absent, max |-> IF mx = Absent THEN 0 ELSE mx]
-    /\ phase' = "case" /\ UNCHANGED st
+       \E mn \in LimVals \cup {Absent} : \E mx \in LimVals \cup {Absent} : \E f \in 0..(RepFan - 1) :
+          LET h  == CaseHash(c.x, m[1], m[2], mn, mx)
+              rs == RepsFor(Len(c.x))
+          IN c' = [x |-> c.x, mode |-> m[1], b |-> m[2],
+                   hasmin |-> mn # Absent, min |-> IF mn = Absent THEN 0 ELSE mn,
+                   hasmax |-> mx # Absent, max |-> IF mx = Absent THEN 0 ELSE mx,
+                   rep   |-> rs[((h + 7 * f) % Len(rs)) + 1],
+                   entry |-> EntrySeq[((EntryHash(c.x, m[1], m[2], mn, mx) + f) % Len(EntrySeq)) + 1],
+                   srep  |-> SrepSeq[((SrepHash(c.x, m[2], mn, mx) + f) % Len(SrepSeq)) + 1]]
+    /\ phase' = "case" /\ UNCHANGED <<st, ob>>
 
 Runnable(cc) == ~NoData(cc) /\ ~Degenerate(cc) /\ Unambiguous(cc)
 
 Begin ==
     /\ phase = "case" /\ Runnable(c)
-    /\ st' = PassInit(c) /\ phase' = "pass" /\ UNCHANGED c
+    /\ st' = PassInit(c) /\ phase' = "pass" /\ UNCHANGED <<c, ob>>
 
 Step ==
     /\ phase = "pass" /\ st.i <= Len(SortedLimited(c))
-    /\ st' = PassStep(c, st) /\ UNCHANGED <<phase, c>>
+    /\ st' = PassStep(c, st) /\ UNCHANGED <<phase, c, ob>>
 
 Fill ==
     /\ phase = "pass" /\ st.i > Len(SortedLimited(c))
-    /\ st' = PassFill(c, st, FixedFill) /\ phase' = "done" /\ UNCHANGED c
+    /\ st' = PassFill(c, st, FixedFill) /\ phase' = "done" /\ UNCHANGED <<c, ob>>
 
-Next == ChooseData \/ ChooseSpec \/ Begin \/ Step \/ Fill
+\* ---- the object as a state machine ------------------------------------------------------------
+\* implementation state: cache = the sort index kept by the object (<<>> = not yet computed),
+\* res = what the object holds (hist / rev) after the last call
+NoRes   == [err |-> "noresult", hist |-> <<>>, hasrev |-> FALSE, rev |-> <<>>]
+SkipRes == [err |-> "skip",     hist |-> <<>>, hasrev |-> FALSE, rev |-> <<>>]
+ErrRes  == [err |-> "ValueError", hist |-> <<>>, hasrev |-> FALSE, rev |-> <<>>]
 
-NextExport == ChooseData \/ ChooseSpec          \* enumeration only (export run)
+CalcStatsCall == [op |-> "calc_stats", mode |-> "none", b |-> 0, hasmin |-> FALSE, min |-> 0,
+                  hasmax |-> FALSE, max |-> 0, rev |-> FALSE, cs |-> TRUE]
+
+HSpecs == {<<"binsize", b>> : b \in HBinSizes} \cup {<<"nbin", b>> : b \in HNBins} \cup {<<"nperbin", b>> : b \in HNPer}
+
+\* the dohist calls tried at position k of a history on data x; the option calc_stats=
+\* (cs) follows a covering design over (data, position, call)
+DoCalls(x, k) ==
+    {[op |-> "dohist", mode |-> m[1], b |-> m[2],
+      hasmin |-> mn # Absent, min |-> IF mn = Absent THEN 0 ELSE mn,
+      hasmax |-> mx # Absent, max |-> IF mx = Absent THEN 0 ELSE mx,
+      rev |-> rv, cs |-> (WSum(x, 1) + k + m[2] + B2I(rv) + B2I(mn # Absent)) % 2 = 0]
+       : m \in HSpecs, mn \in HMins \cup {Absent}, mx \in HMaxs \cup {Absent}, rv \in BOOLEAN}
+
+CallHash(cl) == cl.b + (IF cl.mode = "binsize" THEN 0 ELSE IF cl.mode = "nbin" THEN 3 ELSE IF cl.mode = "nperbin" THEN 7 ELSE 17)
+                + 2 * B2I(cl.rev) + 5 * B2I(cl.hasmin) + 11 * B2I(cl.hasmax)
+
+ObjNew ==
+    /\ phase = "start"
+    /\ \E n \in HLens : \E x \in [1..n -> HVals] : \E hw \in BOOLEAN :
+          /\ HBothW \/ hw = ((WSum(x, 1) + n) % 3 = 0)
+          /\ LET rs == RepsFor(n)
+                 h  == WSum(x, 1) + 5 * n + B2I(hw)
+             IN ob' = [x |-> x, hasw |-> hw, rep |-> rs[(h % Len(rs)) + 1], wrep |-> RepSeq[((h \div 2) % Len(RepSeq)) + 1],
+                       calls |-> <<>>, cache |-> <<>>, res |-> NoRes]
+    /\ phase' = "obj" /\ UNCHANGED <<c, st>>
+
+\* -- the pass over an explicitly given sorted index s (chist_pywrap.c / _dohist)
+HPassInit(cc, s) == [i |-> 1, old |-> -1, last |-> NBin(cc) + 1,
+                     hist |-> [k \in 1..NBin(cc) |-> 0],
+                     rev  |-> [k \in 1..(Len(s) + NBin(cc) + 1) |-> 0]]
+HPassStep(cc, s, t) ==
+    LET nb     == NBin(cc)
+        j      == s[t.i]
+        offset == (t.i - 1) + nb + 1
+        rev1   == [t.rev EXCEPT ![offset + 1] = j - 1]
+        bn     == BinOf(cc, j)
+    IN IF bn >= 0 /\ bn < nb
+       THEN [i |-> t.i + 1, old |-> bn, last |-> offset + 1,
+             hist |-> [t.hist EXCEPT ![bn + 1] = @ + 1],
+             rev  |-> [k \in DOMAIN rev1 |-> IF k - 1 > t.old /\ k - 1 <= bn THEN offset ELSE rev1[k]]]
+       ELSE [t EXCEPT !.i = @ + 1, !.rev = rev1]
+RECURSIVE HPassLoop(_, _, _)
+HPassLoop(cc, s, t) == IF t.i > Len(s) THEN t ELSE HPassLoop(cc, s, HPassStep(cc, s, t))
+HPassRun(cc, s, dorev) ==
+    LET f == PassFill(cc, HPassLoop(cc, s, HPassInit(cc, s)), TRUE)
+    IN [err |-> "none", hist |-> f.hist, hasrev |-> dorev, rev |-> IF dorev THEN f.rev ELSE <<>>]
+
+\* -- equal occupancy: nper consecutive members of the sorted, limited index per bin, a short
+\*    last bin merged into its predecessor (mergelast default)
+HByNum(w, nper) ==
+    LET n     == Len(w)
+        nb0   == ((n - 1) \div nper) + 1
+        short == n - (nb0 - 1) * nper
+        merge == short # nper /\ nb0 >= 2
+        nb    == IF merge THEN nb0 - 1 ELSE nb0
+    IN [err |-> "none", hasrev |-> TRUE,
+        hist |-> [i \in 1..nb |-> IF i < nb THEN nper ELSE n - (nb - 1) * nper],
+        rev  |-> [k \in 1..(nb + 1 + n) |-> IF k <= nb THEN nb + 1 + (k - 1) * nper
+                                             ELSE IF k = nb + 1 THEN nb + 1 + n ELSE w[k - nb - 1] - 1]]
+
+\* -- one call on the object (Binner.dohist / calc_stats)
+HApply(o, cl) ==
+    IF cl.op = "calc_stats" THEN [o EXCEPT !.calls = Append(@, cl)]          \* hist / rev untouched
+    ELSE LET x      == o.x
+             need   == cl.rev \/ cl.mode = "nperbin" \/ o.hasw
+             srt    == FixedCache \/ need
+             cache2 == IF o.cache # <<>> THEN o.cache
+                       ELSE IF srt THEN VStableArgsort(x) ELSE [i \in 1..Len(x) |-> i]
+             lo     == IF cl.hasmin THEN cl.min ELSE IF srt THEN x[cache2[1]] ELSE VSeqMin(x)
+             hi     == IF cl.hasmax THEN cl.max ELSE IF srt THEN x[cache2[Len(x)]] ELSE VSeqMax(x)
+             w      == SelectSeq(cache2, LAMBDA j : lo <= x[j] /\ x[j] <= hi)
+             cc     == [x |-> x, mode |-> cl.mode, b |-> cl.b, hasmin |-> TRUE, min |-> lo, hasmax |-> TRUE, max |-> hi]
+             res    == IF w = <<>> THEN ErrRes
+                       ELSE IF cl.mode = "nperbin" THEN HByNum(w, cl.b)
+                       ELSE IF ~Runnable(cc) THEN SkipRes
+                       ELSE HPassRun(cc, w, cl.rev \/ o.hasw)
+         IN [o EXCEPT !.calls = Append(@, cl), !.cache = cache2, !.res = res]
+
+\* covering design: only the LAST call of a history is thinned
+ThinOK(o, cl) ==
+    \/ Len(o.calls) + 1 < HDepth
+    \/ (WSum(o.x, 1) + B2I(o.hasw) + 3 * CallHash(cl)
+        + VSum([k \in 1..Len(o.calls) |-> (2 * k + 5) * CallHash(o.calls[k])])) % HThin = 0
+
+ObjCall ==
+    /\ phase = "obj" /\ Len(ob.calls) < HDepth
+    /\ \E cl \in DoCalls(ob.x, Len(ob.calls) + 1) \cup {CalcStatsCall} :
+          /\ ThinOK(ob, cl)
+          /\ ob' = HApply(ob, cl)
+    /\ UNCHANGED <<phase, c, st>>
+
+\* enumeration only: the same histories without running the mechanism (export run)
+ObjCallX ==
+    /\ phase = "obj" /\ Len(ob.calls) < HDepth
+    /\ \E cl \in DoCalls(ob.x, Len(ob.calls) + 1) \cup {CalcStatsCall} :
+          /\ ThinOK(ob, cl)
+          /\ ob' = [ob EXCEPT !.calls = Append(@, cl)]
+    /\ UNCHANGED <<phase, c, st>>
+
+Next == ChooseData \/ ChooseSpec \/ Begin \/ Step \/ Fill \/ ObjNew \/ ObjCall
+
+NextExport == ChooseData \/ ChooseSpec \/ ObjNew \/ ObjCallX    \* enumeration only (export run)
 
 Spec == Init /\ [][Next]_vars
 
@@ -73,6 +231,15 @@ RefAccepted == (phase = "case" /\ Runnable(c)) =>
     /\ VSum(RefHist(c)) = Cardinality({j \in Limited(c) : Counted(c, j, BinOf(c, j))})
     /\ \A j \in Limited(c) : BinOf(c, j) >= 0
 
+\* the object: whatever was called before, what it holds after a call is an outcome the
+\* property allows for the last dohist call on the data; the cache is the stable argsort
+HistOf(o) == [x |-> o.x, hasw |-> o.hasw, calls |-> o.calls]
+ObjRefines == (phase = "obj" /\ Len(ob.calls) > 0 /\ ob.res.err \notin {"skip", "noresult"}) =>
+    HOStepFailing(HistOf(ob), Len(ob.calls), ob.res) = {}
+CacheSound == phase = "obj" => (ob.cache = <<>> \/ ob.cache = VStableArgsort(ob.x))
+
 \* ---- export -------------------------------------------------------------------------
-Export == (DoExport /\ phase = "case") => PrintT(<<"CASE", ToJson(c)>>)
+Export == /\ (DoExport /\ phase = "case") => PrintT(<<"CASE", ToJson(c)>>)
+          /\ (DoExport /\ phase = "obj" /\ Len(ob.calls) = HDepth) =>
+                PrintT(<<"HIST", ToJson([x |-> ob.x, hasw |-> ob.hasw, rep |-> ob.rep, wrep |-> ob.wrep, calls |-> ob.calls])>>)
 =============================================================================
